@@ -270,8 +270,12 @@ func (ws *priorityWriteSchedulerRFC7540) CloseStream(streamID uint32) {
 	n.state = priorityNodeClosedRFC7540
 	n.addBytes(-n.bytes)
 
+	// Return the queue to the pool and detach it from the node: the node may
+	// stay in the tree as a closed node, and must not keep (or share) the
+	// discarded frames' slots.
 	q := n.q
 	ws.queuePool.put(&q)
+	n.q = writeQueue{}
 	if ws.maxClosedNodesInTree > 0 {
 		ws.addClosedOrIdleNode(&ws.closedNodes, ws.maxClosedNodesInTree, n)
 	} else {
